@@ -157,7 +157,7 @@ def run(ctx):
     def add(init, steps, origin):
         nonlocal sid
         sid += 1
-        scenarios.append({"id": sid, "origin": origin, "mode": "svc" if sid % 2 else "src", "init": init, "steps": steps})
+        scenarios.append({"id": sid, "origin": origin, "mode": ("svc", "src", "rpc")[sid % 3], "init": init, "steps": steps})
         return scenarios[-1]
 
     predicted = []   # (scenario id, model invariant, monitor invariant)
@@ -265,6 +265,16 @@ def run(ctx):
     present = {"present": True, "val": 41, "idx": 7, "gidx": 7}
     gen_counts["free:2calls"] = free("free:2calls", c2, 6 if quick else 8, [absent, present])
     gen_counts["free:3calls"] = free("free:3calls", c3, 8 if quick else 9, [absent, present], limit=150 if quick else 3000, rng=frng)
+
+    # free-running: callers of ONE core racing on one service object, every log call a scheduling point (no schedule imposed)
+    nstress = 0
+    for mode in ("svc", "rpc", "src"):
+        for k in range(2 if quick else 8):
+            sid += 1
+            nstress += 1
+            scenarios.append({"id": sid, "origin": "stress", "mode": mode, "init": present if k % 2 else absent, "steps": [],
+                              "stress": {"callers": 4, "calls": 60 if quick else 250, "seed": frng.randint(1, 1 << 30)}})
+    gen_counts["stress"] = nstress
 
     # ---------------- 3. replay on the real code ----------------
     binp = ctx.build("runcounter")
